@@ -309,8 +309,9 @@ def fault_suite(seed, n_modules, out, drv, budget_s=None, pairs=False, max_len=5
                 if pos < len(src) and src[pos] in '()"' and not inside(pos) and not any(a <= pos < b for a, b in spans):
                     faulty.append((pos, src[pos], 'del', src[:pos] + src[pos + 1:]))
             if pairs:
-                for _ in range(len(faulty) // 10):
-                    (p1, f1, _, _), (p2, f2, _, _) = g.choice(faulty), g.choice(faulty)
+                singles = [x for x in faulty if x[2] == 'ins']
+                for _ in range(len(singles) // 10):
+                    (p1, f1, _, _), (p2, f2, _, _) = g.choice(singles), g.choice(singles)
                     if p1 > p2: p1, f1, p2, f2 = p2, f2, p1, f1
                     faulty.append(((p1, p2), (f1, f2), 'pair', src[:p1] + f1 + src[p1:p2] + f2 + src[p2:]))
             models = drv.run([dict(op='pipeline', cfg={}, headers=['#'], title='T', mod='M', src=s) for _, _, _, s in faulty])
